@@ -183,6 +183,9 @@ class ModState:
             snap[("m", m.__name__)] = (m, d)
             for k, c in list(vars(m).items()):
                 if isinstance(c, type) and getattr(c, "__module__", "") == m.__name__:
+                    import enum
+                    if issubclass(c, enum.Enum):
+                        continue   # members are constants (and cannot be reassigned)
                     cd = {}
                     for ck, cv in list(vars(c).items()):
                         if ck.startswith("__"):
@@ -211,7 +214,10 @@ class ModState:
                             v, (staticmethod, classmethod, property)) and not hasattr(v, "__get__"):
                         delattr(obj, k)
             for k, v in d.items():
-                setattr(obj, k, cp(v))
+                try:
+                    setattr(obj, k, cp(v))
+                except (AttributeError, TypeError):
+                    pass   # a read-only attribute (slots, enum members, ...): nothing a run could have changed
 
 
 def base_config(root, overrides=None, handlers="default"):
